@@ -1,4 +1,5 @@
 import HappyModel.C20.Run
+import HappyModel.C20.TDigest
 /-!
 Judge modes of the C20 driver: evaluate the Spec predicates (`Spec.lean`) on what an implementation
 reported.  Input = the scenario lines of the model block plus `obs …` lines carrying the
@@ -137,8 +138,11 @@ def judgeDiff (py : Bool) (cls : Nat → Nat) (a b : List (Nat × Nat)) (ts : Li
   let rest := (ts.dropWhile (· != "|")).drop 1
   let ba := parseRanges ((rest.drop 1).takeWhile (· != "|"))
   if py then
+    -- the registered finding is about values that are equal under == but SERIALISED DIFFERENTLY; maps that are
+    -- identical serialisation by serialisation (`pyEqualMaps id`) with a non-empty diff are a plain violation
     let sigE := fun (r : List (Nat × Nat)) =>
-      if pyEqualMaps cls a b && !r.isEmpty then "merkle/diff/nonempty-but-python-equal"
+      if pyEqualMaps cls a b && !r.isEmpty then
+        (if pyEqualMaps id a b then "merkle/diff/nonempty-but-identical" else "merkle/diff/nonempty-but-python-equal")
       else "merkle/diff/empty-iff-equal-broken"
     firstSome [
       check (merkleEmptyIffEqualC cls a b ab) (sigE ab),
@@ -180,6 +184,33 @@ def judgeMerkle (body : List String) : List String :=
 
 /-! ### t-digest: `obs Wq keys…`, `obs Mq keys…` = quantile(q) for an increasing grid of q -/
 
+/-- Tie between the real `TDigest.quantile` and the model (`TDigest.lean`): the digest the real object walks
+    over (`cs` = its centroids as (order key of the mean, count), `lo` / `hi` = keys of min / max, `n` = item_count)
+    must be well formed, and the observed answer for `i / b` must lie in the bracket of the rule the model applies
+    (equality with the centroid mean for a `return centroid.mean` rule).  `b` is a power of two (the adapter asks
+    for the tie only then): `q · N`, the half-weights and every comparison of the walk are then exact in doubles,
+    so model and code take the same branch; the float interpolation itself is clamped by the code to its bracket. -/
+def tdTieCheck (cs : List (Int × Nat)) (lo hi : Int) (n b : Nat) (qs : List Int) : Option String :=
+  let d : TD := ⟨cs, lo, hi⟩
+  if cs.isEmpty then none
+  else if !d.wfB then some "tdigest/tie/centroids-ill-formed"
+  else if d.N != n then some "tdigest/tie/weights-do-not-sum-to-item-count"
+  else if qs.length != b + 1 then some "tdigest/missing-observation"
+  else qs.zipIdx.findSome? fun p =>
+    if (d.quantile p.2 b).admits p.1 then none else some "tdigest/tie/quantile-outside-the-bracket-of-its-rule"
+
+/-- `tie <b>`, `cent <name> <key> <count>`*, `lohi <name> <lo> <hi> <n>` -/
+def tdTie (name : String) (body : List String) (qs : List Int) : Option String :=
+  match firstWith "tie" body with
+  | [bs] =>
+    let cs := (linesWith "cent" body).filterMap fun ts => match ts with
+      | [nm, k, c] => if nm == name then some (intD k, natD c) else none
+      | _ => none
+    match (linesWith "lohi" body).find? fun ts => ts.head? == some name with
+    | some [_, lo, hi, n] => tdTieCheck cs (intD lo) (intD hi) (natD n) (natD bs) qs
+    | _ => none
+  | _ => none
+
 def judgeTd (body : List String) : List String :=
   let adds := parseTdAdds body
   let live := (adds.filter (fun p => p.2 > 0)).map (·.1)
@@ -190,7 +221,7 @@ def judgeTd (body : List String) : List String :=
       | some lo, some hi =>
         if !nondecreasing (ints qs) then some "tdigest/quantile/not-monotone"
         else if !withinMinMax lo hi (ints qs) then some "tdigest/quantile/outside-min-max"
-        else none
+        else tdTie (if name == "Wq" then "W" else "M") body (ints qs)
       | _, _ => none
     | _ => none
   match firstSome [one "Wq", one "Mq"] with
